@@ -131,6 +131,9 @@ def oracle(case, obs):
         full = impl({**case, "maxSize": 0})
         full_len = len(full.split("|")[0]) // 2 if not full.startswith("E:") else len(data)
     if mx == 0 or full_len <= mx:
+        if dec.startswith("E:"):
+            return Failure(case, f"decoding the message's own encoding raised {dec[2:]}",
+                           "compression-offset-over-16k" if big else "decode-raised-" + dec[2:])
         if dec != want_full:
             sec = _first_diff_section(dec, want_full)
             return Failure(case, f"decoded message differs from the encoded one in {sec}",
@@ -365,6 +368,41 @@ def straddle_family(rng, n_names, per_boundary=(-1, 0, 1)):
     return out
 
 
+def chain_message(depth, rng=None):
+    """names x, l1.x, l2.l1.x, ...: each record's owner is the previous one with one more leading label, so the
+    encoder writes one label and a pointer to the previous name - reading the last name follows `depth` pointers"""
+    hdr = {"id": 11, "answer": 1, "opCode": 0, "auth": 1, "trunc": 0, "recDes": 0, "recAv": 0, "authenticData": 0,
+           "checkingDisabled": 0, "rCode": 0}
+    name = [hx(b"x")]
+    an = []
+    for i in range(depth + 1):
+        an.append({"n": list(name), "t": 1, "c": 1, "ttl": i, "d": [{"b": "0a0000%02x" % (i & 255)}]})
+        lab = b"l%d" % i if rng is None else bytes([97 + rng.randrange(26)]) * rng.choice([1, 2, 3])
+        name = [hx(lab)] + name
+    an.append({"n": [hx(b"www")] + name[1:], "t": 5, "c": 1, "ttl": 1, "d": [{"n": name[1:]}]})
+    # (no question with the deep name: written first it would register every suffix and flatten the chain)
+    return {"kind": "msg", "hdr": hdr, "q": [[[hx(b"x")], 1, 1]], "an": an, "ns": [], "ar": [], "maxSize": 0, "model": True}
+
+
+def long_shared_message(rng, k=None):
+    """an over-long name P.S (> 255 bytes on the wire) whose tail S is a legal name already written earlier in the
+    message (so the encoder would compress it away), with P alone well within the limit: must be refused"""
+    c = gen_message(rng, "tiny")
+    S = rng.choice([[b"n" * 63, b"m" * 63, b"o" * 63], [b"s" * 63, b"t" * 63, b"u" * 40, b"v" * 20],
+                    [b"a" * 50, b"b" * 50, b"c" * 50, b"d" * 38]])
+    room = 255 - W.wire_len([hx(l) for l in S])
+    k = k if k is not None else rng.choice([room, room + 1, room + 2, 63])       # label + length byte > room: too long
+    P = [b"p" * min(63, max(1, k))] + ([b"q" * 30] if rng.random() < 0.3 else [])
+    c["q"] = [[[hx(l) for l in S], 1, 1]]
+    where = rng.choice(["an", "an", "ar", "rdata"])
+    rr = {"n": [hx(l) for l in P + S], "t": 1, "c": 1, "ttl": 1, "d": [{"b": "01020304"}]}
+    if where == "rdata":
+        rr = {"n": [hx(b"ok")], "t": 2, "c": 1, "ttl": 1, "d": [{"n": [hx(l) for l in P + S]}]}
+        where = "an"
+    c[where] = [{"n": [hx(l) for l in S], "t": 1, "c": 1, "ttl": 2, "d": [{"b": "7f000001"}]}, rr]
+    return c
+
+
 def corpus():
     import random
     rng = random.Random(32)
@@ -380,6 +418,10 @@ def corpus():
         cs.append(c)
     for target in (16382, 16383, 16384, 16385):                # the 14-bit pointer boundary, exactly
         cs.append(offset_message(target, [hx(b"late"), hx(b"name"), hx(b"test")]))
+    for depth in (16, 17, 18, 40):                             # pointer chains one hop per level (seeded C32-C)
+        cs.append(chain_message(depth))
+    for k in (61, 62, 63):                                     # 193 + k + 1 bytes: 255 fits, 256 / 257 do not (C32-D)
+        cs.append(long_shared_message(random.Random(k), k))
     # a name straddling the 14-bit limit whose suffixes are reused later (seeded mutation C32-A)
     strad = [hx(b"a-rather-long-first-label"), hx(b"tail"), hx(b"zone"), hx(b"example")]
     cs.append(straddle_message(0x4000 - 10, strad, model=True))     # first label straddles: all suffixes beyond
@@ -434,6 +476,10 @@ def gen(rng, tier):
         c["ns"], c["ar"] = [], []
         cases.append(c)
     cases += straddle_family(rng, 1 if tier == "quick" else 12)
+    for _ in range(3 if tier == "quick" else 60):
+        cases.append(chain_message(rng.randrange(17, 41), rng))
+    for _ in range(10 if tier == "quick" else 200):
+        cases.append(long_shared_message(rng))
     if tier == "thorough":
         for k in (64, 65, 66, 67, 68):
             cases.append(big_message(rng, k, gen_name(rng) or [hx(b"z")]))
